@@ -45,6 +45,8 @@ CHECKS = {
                       part("TestC15Race", 1, 25, 2, 300, race=True, env={"GOMAXPROCS": "2"}),
                       part("TestC15Race", 1, 25, 2, 300, race=True, env={"GOMAXPROCS": "4"}),
                       part("TestC15Race", 1, 25, 2, 300, race=True, env={"GOMAXPROCS": "16"})]},
+    "C10": {"level": "exploration",
+            "parts": [part("TestC10", 8, 12, 16, 300)]},
     "C04": {"level": "exploration", "scheduled": True,
             "parts": [part("TestC04", 8, 100, 16, 1500)]},
 }
